@@ -17,6 +17,10 @@ import (
 
 var ErrSubscriptionExists = errors.New("subscription ID already exists")
 
+// errClosedBeforeRegister is returned by subscribe when the connection was already
+// closed when the subscriber tried to register; it wraps common.ErrConnectionClosed.
+var errClosedBeforeRegister = fmt.Errorf("%w", common.ErrConnectionClosed)
+
 type wsConnectionOptions struct {
 	logger       abstractlogger.Logger
 	writeTimeout time.Duration
@@ -83,7 +87,7 @@ func (c *wsConnection) subscribe(ctx context.Context, id string, req *common.Req
 
 	if c.closed.Load() {
 		c.subsMu.Unlock()
-		return nil, common.ErrConnectionClosed
+		return nil, errClosedBeforeRegister
 	}
 
 	if _, exists := c.subs[id]; exists {
@@ -135,18 +139,26 @@ func (c *wsConnection) removeSub(id string) {
 
 	if isEmpty {
 		if c.idleTimeout > 0 {
-			time.AfterFunc(c.idleTimeout, func() {
-				c.subsMu.RLock()
-				stillEmpty := len(c.subs) == 0
-				c.subsMu.RUnlock()
-				if stillEmpty {
-					c.closeConn()
-				}
-			})
+			time.AfterFunc(c.idleTimeout, c.closeIfEmpty)
 		} else {
-			c.closeConn()
+			c.closeIfEmpty()
 		}
 	}
+}
+
+// closeIfEmpty closes the connection unless a subscription is registered. The
+// emptiness check and the closed flag change happen under subsMu, the lock under
+// which subscribe registers, so a subscriber is either seen here (the connection
+// stays open) or sees the closed flag (and takes another connection).
+func (c *wsConnection) closeIfEmpty() {
+	c.subsMu.Lock()
+	if len(c.subs) != 0 || !c.closed.CompareAndSwap(false, true) {
+		c.subsMu.Unlock()
+		return
+	}
+	c.subsMu.Unlock()
+
+	c.teardown(common.ErrConnectionClosed)
 }
 
 func (c *wsConnection) unsubscribe(id string) {
@@ -224,6 +236,11 @@ func (c *wsConnection) shutdown(err error) {
 		return
 	}
 
+	c.teardown(err)
+}
+
+// teardown does the work of shutdown; the caller has won the closed flag.
+func (c *wsConnection) teardown(err error) {
 	c.log.Debug("wsConnection.shutdown",
 		abstractlogger.Error(err),
 	)
